@@ -124,3 +124,193 @@ def run_tlc(traces, workers=16, timeout=3000):
     if not traces:
         return {}, {"states": 0, "distinct": 0, "tlc_runs": 0, "tlc_wall_s": 0.0, "D": []}, {}
     return tlc.run_batches(traces, workers=workers, timeout=timeout)
+
+
+# ------------------------------------------------------------------------------------------------
+# generic trace construction: a list of claim builders contributes programs and claims to one trace per
+# (item, parameter point)
+
+class TraceCtx:
+    def __init__(self, it, res, pi, Nt):
+        self.it, self.res, self.pi, self.N = it, res, pi, Nt
+        self.progs = []          # abstract programs (python form)
+        self.steps = [[] for _ in range(Nt + 1)]
+        self.notes = {}
+        self.direct = []         # violations visible without the spec (e.g. a result with a free symbol)
+
+    def add_prog(self, P):
+        self.progs.append(P)
+        return len(self.progs)    # 1-based index
+
+    def claim(self, n, cl):
+        if 0 <= n <= self.N:
+            self.steps[n].append(cl)
+
+    def note(self, k, v=1):
+        self.notes[k] = self.notes.get(k, 0) + v
+
+
+def horizon_for(it, N):
+    if it.get("T") is not None:
+        return min(N, gen.horizon(it["T"])[0])
+    return N
+
+
+def build(items, results, N, builders, suffix=""):
+    """builders: functions (ctx) -> None that add programs/claims; a builder may raise Skip."""
+    traces, meta, notes = [], {}, {}
+    for it in items:
+        res = results.get(it["id"])
+        if res is None or res.get("stage") in ("parse", "timeout", "crash", "worker", "unsupported"):
+            notes["no_result"] = notes.get("no_result", 0) + 1
+            continue
+        for pi, pt in enumerate(res.get("points_used", [])):
+            ctx = TraceCtx(it, res, pi, horizon_for(it, N))
+            try:
+                for b in builders:
+                    b(ctx)
+            except SkipTrace as ex:
+                notes[str(ex)] = notes.get(str(ex), 0) + 1
+                continue
+            for k, v in ctx.notes.items():
+                notes[k] = notes.get(k, 0) + v
+            for d in ctx.direct:
+                notes.setdefault("direct", []).append((it["id"], pi, d))
+            if not ctx.progs or not any(ctx.steps):
+                continue
+            allvars = []
+            for P in ctx.progs:
+                for v in P["vars"]:
+                    if v not in allvars:
+                        allvars.append(v)
+            tid = f"{it['id']}-p{pi}{suffix}"
+            traces.append({"id": tid, "vars": allvars, "progs": ctx.progs, "N": ctx.N, "steps": ctx.steps})
+            meta[tid] = (it, pi)
+    return traces, meta, notes
+
+
+class SkipTrace(Exception):
+    pass
+
+
+def b_source(ctx):
+    P = source_program(ctx.it, ctx.res, ctx.pi)
+    if P is None:
+        raise SkipTrace("source_unsupported")
+    ctx.src = ctx.add_prog(P)
+    ctx.srcP = P
+
+
+def b_moments(ctx, key="goals", kind="mom"):
+    """Polar's closed forms evaluated at n = 0..N bound to Moment(goal) of the source program"""
+    if ctx.res.get("stage"):
+        raise SkipTrace("refused")
+    P = ctx.srcP
+    for g, go in ctx.res.get(key, {}).items():
+        if "values" not in go:
+            ctx.note("goal_exception")
+            continue
+        poly = absyn.mono_of(g)
+        if any(v not in P["vars"] for v, _ in poly[0][1]):
+            ctx.note("goal_var_not_in_source")
+            continue
+        for n, val in enumerate(go["values"][ctx.pi][:ctx.N + 1]):
+            cl, why = val_claims("mom", val, {"pi": ctx.src, "poly": poly, "tag": g})
+            if cl is None:
+                ctx.note(why)
+                if why == "free":
+                    ctx.direct.append({"clause": "free-symbol", "goal": g, "n": n, "polar_value": val})
+                continue
+            if cl["t"] == "momI":
+                ctx.note("approx")
+            ctx.claim(n, cl)
+
+
+POISON = [F(7919), F(7927), F(7933), F(7937), F(7949), F(7951), F(7963), F(7993), F(8009), F(8011), F(8017), F(8039)]
+
+
+def poisoned(P, keep):
+    """give every variable that the program does not initialise and that is not a source variable a
+    distinctive start value: an auxiliary introduced by a pass must never be read before it is written"""
+    P = dict(P)
+    s0 = dict(P["s0"])
+    k = 0
+    for v in P["vars"]:
+        if v not in s0 and v not in keep:
+            s0[v] = POISON[k % len(POISON)] + 2 * (k // len(POISON))
+            k += 1
+    P["s0"] = s0
+    return P
+
+
+def b_normalized(ctx):
+    res = ctx.res
+    if res.get("stage") or "normalized" not in res:
+        raise SkipTrace("no_normalized" if not res.get("stage") else "refused")
+    src_vars = set(res.get("variables", []))
+    P = poisoned(absyn.prog(res["normalized"][ctx.pi]), src_vars)
+    ctx.norm = ctx.add_prog(P)
+    ctx.normP = P
+
+
+def b_recs(ctx):
+    """C03: every equation of every recurrence system, as expectation identity and pointwise"""
+    seen = set()
+    for g, go in ctx.res.get("goals", {}).items():
+        recs = go.get("recs")
+        if not recs:
+            continue
+        for eq in recs["points"][ctx.pi]["eqs"]:
+            key = json.dumps(eq["lhs"])
+            if key in seen:
+                continue
+            seen.add(key)
+            lhs, rhsp = absyn.poly(eq["lhs"]), absyn.poly(eq["rhsp"])
+            ctx.claim(0, {"t": "mom", "pi": ctx.norm, "poly": lhs, "val": absyn.sc(eq["init"]) if not isinstance(eq["init"], list) else absyn.sc(eq["init"])[0], "tag": "init:" + key})
+            for n in range(1, ctx.N + 1):
+                ctx.claim(n, {"t": "recE", "pi": ctx.norm, "lhs": lhs, "rhsp": rhsp, "tag": "recE:" + key})
+                ctx.claim(n, {"t": "recpt", "pi": ctx.norm, "lhs": lhs, "rhsp": rhsp, "tag": "recpt:" + key})
+    ctx.note("equations", len(seen))
+
+
+def b_types(ctx):
+    """C05: inferred finite types contain every value ever held (checked after every statement)"""
+    user = set((ctx.it.get("types") or {}).keys()) | set(ctx.res.get("user_typed", []))
+    k = 0
+    for v, vals in ctx.res.get("typedefs", {}).items():
+        if v in user or v not in ctx.normP["vars"]:
+            continue
+        if any(isinstance(x, str) and x.startswith("sym:") for x in vals):
+            continue
+        k += 1
+        for n in range(0, ctx.N + 1):
+            ctx.claim(n, {"t": "supp", "pi": ctx.norm, "v": v, "vals": [F(x) for x in vals], "tag": v})
+    ctx.note("typed_vars", k)
+
+
+def b_passes(ctx):
+    """C02: the program after each pass has, at every iteration boundary, the same joint law on the source
+    variables as the source program"""
+    res = ctx.res
+    src_vars = [v for v in ctx.srcP["vars"] if not v.startswith("_")]
+    stages = []
+    if "parsed" in res and ctx.it.get("T") is not None:
+        stages.append(("parse", res["parsed"][ctx.pi]))
+    for sn in res.get("passes", []):
+        if "progs" in sn:
+            stages.append((sn["pass"], sn["progs"][ctx.pi]))
+        else:
+            ctx.note("pass_unsupported")
+    last = None
+    for name, Pj in stages:
+        key = json.dumps(Pj, sort_keys=True)
+        if key == last:
+            ctx.note("pass_noop")
+            continue
+        last = key
+        P = poisoned(absyn.prog(Pj), set(ctx.srcP["vars"]))
+        idx = ctx.add_prog(P)
+        common = [v for v in src_vars if v in P["vars"]]
+        for n in range(0, ctx.N + 1):
+            ctx.claim(n, {"t": "equiv", "a": ctx.src, "b": idx, "va": common, "vb": common, "tag": name})
+        ctx.note("passes_checked")
